@@ -43,7 +43,8 @@ def cases(tier, seed):
                     "dtype": ("float32", "float64", "uint8", "int16")[int(rng.integers(0, 4))] if picker != "tm" else "float32",
                     "chunking": ("halves", "irregular", "thin", "pencil", "single", "cubes")[int(rng.integers(0, 6))],
                     "sched": ("sync", "threads", "shuffle")[int(rng.integers(0, 3))],
-                    "iseed": int(rng.integers(0, 2**31)), "cost": 6.0 if picker == "tm" else 3.0})
+                    "iseed": int(rng.integers(0, 2**31)), "cost": 6.0 if picker == "tm" else 3.0,
+                    "slab": bool(rng.random() < 0.25), "md_px": float(rng.choice([5.0, 8.0, 10.0]))})
     return out
 
 
@@ -66,6 +67,9 @@ def _chunks(kind, shape, depth, rng):
     if kind == "irregular":
         out = []
         for s in shape:
+            if s // 2 <= max(depth + 1, s // 4):
+                out.append((s,))
+                continue
             a = int(rng.integers(max(depth + 1, s // 4), s // 2))
             b = int(rng.integers(max(depth + 1, s // 4), s // 2))
             out.append((a, b, s - a - b))
@@ -108,6 +112,18 @@ def run(case):
         depth = int(np.ceil(sig_px * 2))
         shape = tuple(int(x) for x in rng.integers(34, 61, size=3))
         truth = _place(rng, shape, p["npart"], min_sep=6 * sig_px, margin=3 * sig_px + 2)
+        if p.get("slab"):
+            # an image thinner than the overlap depth along one axis; particles on its mid-plane
+            ax = int(rng.integers(0, 3))
+            shape = tuple(int(rng.integers(int(2 * sig_px) + 4, int(4 * sig_px) + 1)) if a == ax else s
+                          for a, s in enumerate(shape))
+            truth[:, ax] = (shape[ax] - 1) / 2 + rng.uniform(-0.4, 0.4, size=len(truth))
+            keep = [0]
+            for i in range(1, len(truth)):
+                if all(np.abs(truth[i] - truth[j]).max() >= 6 * sig_px for j in keep):
+                    keep.append(i)
+            truth = truth[keep]
+            case.count("slab_images")
         vol = np.zeros(shape)
         for t in truth:
             gen.render_world(shape, [(float(rng.uniform(0.5, 2.0)), np.zeros(3), sig_px)], t, None, dtype=None, out=vol)
@@ -130,7 +146,8 @@ def run(case):
         rots = [Rotation.identity(), Rotation.from_rotvec([0, 0, np.pi / 2]), Rotation.from_rotvec([np.pi / 2, 0, 0])]
         depth = int(np.ceil(S / 2))
         shape = tuple(int(x) for x in rng.integers(36, 53, size=3))
-        truth = _place(rng, shape, p["npart"], min_sep=max(tshape) + 6, margin=max(tshape) / 2 + 3)
+        md_px = float(p.get("md_px", 5.0))
+        truth = _place(rng, shape, p["npart"], min_sep=max(tshape) + (6 if md_px == 5.0 else 2), margin=max(tshape) / 2 + 3)
         truth = np.round(truth)
         vol = np.zeros(shape)
         ks = []
@@ -140,7 +157,7 @@ def run(case):
             gen.render_world(shape, blobs, t, rots[k], dtype=None, out=vol)
         vol = (vol + 0.02 * rng.normal(size=shape)).astype(np.float32)
         picker = ZNCCTemplateMatcher(tmpl, rotation=Rotation.from_quat(np.stack([r.as_quat() for r in rots])), order=1)
-        kw = {"min_distance": 5.0 * scale, "min_score": 0.5}
+        kw = {"min_distance": md_px * scale, "min_score": 0.5}
         tol = TOLERANCES["tm_px"]
     if len(truth) < 2:
         return
